@@ -256,15 +256,8 @@ def parseImpl (toks : List String) : ImplOut :=
 
 /-! ### judges -/
 
-/-- Backend on whose behalf an op acts (none: housekeeping and the like). -/
-def originBackend (h : Hub) : Op → Option Nat
-  | .hello _ b _ _ _ _ => some b
-  | .resume _ (some s) => (h.sess s).map (·.backend)
-  | .bye c | .disconnect c => ((h.connSess c).bind h.sess).map (·.backend)
-  | .join s _ _ _ | .message s _ _ _ | .addVirtual s _ _ _ _ _ | .removeVirtual s _ _ | .internalInCall s _ =>
-    (h.sess s).map (·.backend)
-  | .api b _ _ => some b
-  | _ => none
+/-- Backend on whose behalf an op acts: the spec's `originOf` (the one `C03_isolation` is stated with). -/
+def originBackend (h : Hub) (op : Op) : Option Nat := originOf h op
 
 /-- Backend of the session that owns a connection (before or after the step). -/
 def connBackend (pre post : Hub) (c : Nat) : Option Nat :=
